@@ -83,6 +83,9 @@ pub struct Outcome {
     pub all_finished: bool,
 }
 
+/// Trace entry appended for a scheduled thread that ended by panicking.
+pub const PANIC_SITE: u32 = u32::MAX - 1;
+
 /// Runs `threads` under `schedule`. `limit` bounds the number of round-robin tail steps.
 pub fn run(schedule: &[usize], threads: Vec<Box<dyn FnOnce() + Send>>, limit: usize) -> Outcome {
     metrics::__verif::set_callback(Some(callback));
@@ -178,12 +181,13 @@ pub fn run(schedule: &[usize], threads: Vec<Box<dyn FnOnce() + Send>>, limit: us
             let _g = ctl.cv.wait_timeout(g, std::time::Duration::from_millis(1)).unwrap();
         }
     }
-    let mut panicked = false;
-    for h in handles {
+    // a scheduled thread that panicked (and whose driver did not catch it) leaves a trace entry
+    // (tid, PANIC_SITE) that no model trace contains, so the run disagrees with the model instead of
+    // passing silently with that thread's remaining work missing
+    for (tid, h) in handles.into_iter().enumerate() {
         if h.join().is_err() {
-            panicked = true;
+            steps.push((tid, PANIC_SITE));
         }
     }
-    let _ = panicked;
     Outcome { steps, all_finished }
 }
